@@ -97,7 +97,14 @@ func c06Gen(rt *rapid.T) wProg {
 					wOp{K: "sub", S: hs, T: "g0", A: "JRWPASD"},
 					wOp{K: "set", S: hs, T: "g0", A: "given", U: 0, B: gPick(rt, []string{"JRWPASD", "JRWPAS", "JRWP", "N", "RWPASDO"}, "demote")})
 			}
-		case x < 8:
+		case x < 7:
+			// an approver (A, no D, no S) raises own grant asking for D together with a bit he lacks
+			adm := gInt(rt, 1, 2, "approver")
+			if hs := sessOfUser(adm); hs > 0 {
+				p.Ops = append(p.Ops, wOp{K: "set", S: 0, T: "g0", A: "given", U: adm, B: "JRWPA"}, wOp{K: "sub", S: hs, T: "g0", A: "JRWPA"},
+					wOp{K: "set", S: hs, T: "g0", A: "mode", B: gPick(rt, []string{"JRWPASD", "JRWPAD", "JRWPASDO"}, "raise")})
+			}
+		case x < 9:
 			// an heir who was offered ownership (not yet accepted, or accepted) hands O on to a third user
 			heir := gInt(rt, 1, 2, "heir")
 			third := 3 - heir
